@@ -28,9 +28,9 @@ def main():
         if rc != 0:
             print('PATCH DOES NOT APPLY', out[:300]); return 1
         shutil.copy(os.path.join(src, 'demo.py'), os.path.join(wt, '_demo.py'))
-        rc_with, o1 = sh('/venv/bin/python _demo.py', cwd=wt, timeout=600)
+        rc_with, o1 = sh('PYTHONPATH=%s /venv/bin/python _demo.py' % wt, cwd=wt, timeout=600)
         shutil.copy(os.path.join(src, 'demo.py'), '/tmp/mutchk/_demo_%s.py' % name)
-        rc_without, o2 = sh('/venv/bin/python /tmp/mutchk/_demo_%s.py' % name, cwd='/repo', timeout=600)
+        rc_without, o2 = sh('PYTHONPATH=/repo /venv/bin/python /tmp/mutchk/_demo_%s.py' % name, cwd='/repo', timeout=600)
         os.unlink(os.path.join(wt, '_demo.py')); os.unlink('/tmp/mutchk/_demo_%s.py' % name)
         sh('rm -rf /repo/__pycache__ /repo/_spydrnet.log')
         meta['demo_exit_with_change'] = rc_with; meta['demo_exit_without_change'] = rc_without
